@@ -28,6 +28,11 @@ namespace rkcommon {
 
       explicit OwnedArray(T *data, size_t size);
 
+      // copies own a copy of the data (the base class pointer must designate
+      // the copy's own buffer, not the buffer of the array copied from)
+      OwnedArray(const OwnedArray &other);
+      OwnedArray &operator=(const OwnedArray &other);
+
       template <size_t SIZE>
       OwnedArray &operator=(std::array<T, SIZE> &rhs);
 
@@ -63,6 +68,21 @@ namespace rkcommon {
     inline OwnedArray<T>::OwnedArray(std::vector<T> &init) : dataBuf(init)
     {
       AbstractArray<T>::setPtr(dataBuf.data(), dataBuf.size());
+    }
+
+    template <typename T>
+    inline OwnedArray<T>::OwnedArray(const OwnedArray<T> &other)
+        : AbstractArray<T>(), dataBuf(other.dataBuf)
+    {
+      AbstractArray<T>::setPtr(dataBuf.data(), dataBuf.size());
+    }
+
+    template <typename T>
+    inline OwnedArray<T> &OwnedArray<T>::operator=(const OwnedArray<T> &other)
+    {
+      dataBuf = other.dataBuf;
+      AbstractArray<T>::setPtr(dataBuf.data(), dataBuf.size());
+      return *this;
     }
 
     template <typename T>
